@@ -924,12 +924,25 @@ RAW_INPUT = (NS + 'read_exactly', NS + 'reliable_read', 'read', '::read')
 FD_CLOSERS = (NS + 'reliable_close', 'close', '::close')
 
 
+def _is_result_queue_call(n):
+    """call on the parser result queue -- the queue of Buffer futures, which is what Reader::close() shuts down.  (The input
+    queue of string futures is shut down only by the parser's own queue_wrapper; on the fd path it never changes.)"""
+    return 'osmium::memory::Buffer' in (n.get('rclsT') or '')
+
+
 def _observes_shutdown(fn, n):
-    """call reads a state that Reader::close() changes: the in-use flag of a pipeline queue or an atomic flag."""
+    """call reads a state that Reader::close() changes: the in-use flag of the result queue, or an atomic flag reached
+    through a pointer / reference member (state shared with the Reader; a by-value atomic member is the parser's own)."""
     q = n.get('q', '')
     if q == QUEUE + '::in_use':
-        return True
-    return q.startswith(('std::atomic', 'std::__atomic_base')) and q.rsplit('::', 1)[-1] in ('load', '(conv)', 'operator bool')
+        return _is_result_queue_call(n)
+    if q.startswith(('std::atomic', 'std::__atomic_base')) and q.rsplit('::', 1)[-1] in ('load', '(conv)', 'operator bool') and n.get('recv') is not None:
+        r = fn.root_var(n['recv'])
+        if r is not None and r[0] == 'field' and fn.cls:
+            rec = fn.fb.record(fn.cls)
+            fd = rec.field(r[2]) if rec is not None else None
+            return bool(fd and fd.get('ptr'))
+    return False
 
 
 def _state_call(fb, fn, n, memo, depth=4):
@@ -976,7 +989,7 @@ def _eval_shut_down(fb, fn, nid, depth=0):
         return True if (a is True or b is True) else (False if (a is False and b is False) else None)
     if k == 'call':
         if n.get('q') == QUEUE + '::in_use':
-            return False
+            return False if _is_result_queue_call(n) else None
         if n.get('u') and n.get('q', '').startswith('osmium::') and not n.get('virt'):
             vals = set()
             for g in fb.by_usr.get(n['u'], []):
@@ -1047,8 +1060,8 @@ def rule_parser_input_loops(fb, R):
                     continue
                 w = w or path_search(f, ce, lambda e, ce=ce: e == ce, lambda e: e in obs)
             R.check(w is None, 'S4-parser-fd-loop-observes-close', f.q + '#fd-input-loop', f.loc(raw[0]['id']),
-                    'the loop in %s reads from the file descriptor in every iteration (%s) but no iteration tests a state that Reader::close() '
-                    'changes: after close() or an abandoned Reader the parser thread still reads and decodes the rest of the file and the '
+                    'the loop in %s reads from the file descriptor in every iteration (%s) but no iteration leaves the loop on a test of a state '
+                    'that Reader::close() changes (in_use() of the result queue; the input queue never changes on this path): after close() or an abandoned Reader the parser thread still reads and decodes the rest of the file and the '
                     'destructor waits for it (a closed Reader must read nothing more from its input)'
                     % (f.q, ', '.join(sorted({c['q'].rsplit('::', 1)[-1] for c in raw}))))
     return found
@@ -1113,6 +1126,26 @@ def rule_parser_fd(fb, R, E):
                        'never closed -- neither ~%s nor the Reader closes it -- so every failed read leaks one file descriptor'
                        % (rec.q, fdfield, bad.label, E.chain(bad.thrown[typ], typ), rec.q.rsplit('::', 1)[-1]))
             R.check(bad is None, 'F1-parser-closes-its-descriptor', f.q + '#closed-on-error-paths', f.loc(bad.nid) if bad else f.site, msg)
+            # typestate of the owned descriptor: closed at most once over run() + destructor.  If the destructor closes the
+            # member, a close in run() must leave the member invalid (negative) on every path that reaches the destructor: the
+            # invalidating store dominates the close (copy, invalidate, close the copy), or follows it on every path and the
+            # closing function cannot throw in between.
+            if dtor_closes:
+                inval = {elem_of(f, a['id']) for a in f.all_nodes() if a.get('k') == 'assign' and a.get('op') == '='
+                         and fn_field(f, a['lhs']) == fdfield and (f.const_value(a['rhs']) or 0) < 0}
+                bad2 = None
+                for c in closers(f):
+                    if any(f.elem_dominates(i, c['id']) for i in inval if i is not None):
+                        continue
+                    throws = any(E.body_escapes(g) for g in fb.by_usr.get(c.get('u'), []))
+                    after = path_search(f, c['id'], _exit_t, lambda e: e in inval) is None
+                    if after and not throws and inval:
+                        continue
+                    bad2 = c
+                R.check(bad2 is None, 'F1-parser-closes-its-descriptor', f.q + '#closed-at-most-once', f.loc(bad2['id']) if bad2 else f.site,
+                        '%s closes %s in run() and leaves the member valid, and ~%s closes it again: the second close hits a descriptor number '
+                        'that the application may have re-used in between (store -1 into %s before closing a copy of it)'
+                        % (rec.q, fdfield, rec.q.rsplit('::', 1)[-1], fdfield))
         if not run:
             R.broken('%s: run() not found' % rec.q)
     return found
@@ -1212,7 +1245,14 @@ def rule_unblocking(fb, R):
                 '~queue_wrapper must shut its queue down on every path, otherwise a producer blocked on the full queue never returns '
                 'when the consumer goes away: %s' % _dp(d, w))
     if not ds:
-        R.broken('queue_wrapper destructor not found')
+        recs = fb.records_named(QW)
+        if not recs:
+            R.broken('record %s not found' % QW)
+        else:
+            # no user-provided destructor body: nothing shuts the queue down when the wrapper (the consumer) goes away
+            R.bad('U1-wrapper-dtor-shuts-queue-down', QW + '::(dtor)', '%s:%d' % (recs[0].file, recs[0].line),
+                  'queue_wrapper has no user-provided destructor (defaulted or missing), so its queue is not shut down on destruction: when a '
+                  'parser dies, the read thread blocks / spins forever in push() on the full input queue and Reader::close() never returns from join()')
     # U2: pop() shuts the queue down at end of data
     ps = _dedupe(fb.fns(QW + '::pop'))
     for f in fb.fns(QW + '::pop'):
@@ -1346,7 +1386,7 @@ def run(ctx):
     R.expect('S3-stop-flag-before-join', 1)
     R.expect('S3-read-loop-tests-stop-flag', 1)
     R.expect('S4-parser-fd-loop-observes-close', 1)  # PBFParser::parse_data_blobs
-    R.expect('F1-parser-closes-its-descriptor', 2)   # PBFParser::run normal / error exits
+    R.expect('F1-parser-closes-its-descriptor', 2)   # PBFParser::run normal / error exits (+ closed-at-most-once while the destructor closes)
     R.expect('D1-destructor-swallows', 17)
     R.expect('D1-throwing-call-in-destructor-wrapped', 8)   # 3 compressors, 3 decompressors, Reader, Writer
     R.expect('L1-referent-declared-before-holder', 11)   # 12 today; ReadThreadManager#m_done<m_thread exists only while the
@@ -1373,7 +1413,8 @@ def _selftest(fb, R):
     # the conforming twin in the positive example must stay silent
     for (rule, key) in (('S4-parser-fd-loop-observes-close', NS + 'GoodFdParser::run#fd-input-loop'),
                         ('F1-parser-closes-its-descriptor', NS + 'GoodFdParser::run#closed-on-normal-exit'),
-                        ('F1-parser-closes-its-descriptor', NS + 'GoodFdParser::run#closed-on-error-paths')):
+                        ('F1-parser-closes-its-descriptor', NS + 'GoodFdParser::run#closed-on-error-paths'),
+                        ('F1-parser-closes-its-descriptor', NS + 'GoodFdParser::run#closed-at-most-once')):
         i = R.instances.get((rule, key))
         if i is None or not i.ok:
             raise AnalysisBroken('rule %s reports (or does not see) the conforming example %s' % (rule, key))
